@@ -535,16 +535,36 @@ def find_function(tree, cls, fn):
     raise Untranslatable(f"function {fn} not found")
 
 
-def translate_all(repo=None):
+AREAS = {"tokenizer.py": "Tok", "expressions.py": "Print", "util.py": "Util"}   # everything else: "Rules"
+AREA_IMPORTS = {"Tok": ["Mathy.Model.PyRt"], "Print": ["Mathy.Model.PyRt"], "Util": ["Mathy.Model.PyRt"],
+                "Rules": ["Mathy.Model.PyRt", "Mathy.Gen.PySrcUtil"]}
+
+
+def translate_areas(repo=None):
+    """one generated file per area of the code base, so that a function that cannot be translated
+    any more only breaks the obligations of the properties about that area"""
     repo = repo or core.REPO
+    texts, problems = {}, []
+    for area in ("Tok", "Print", "Util", "Rules"):
+        t, pr = translate_all(repo, area)
+        texts[area] = t
+        problems += pr
+    return texts, problems
+
+
+def translate_all(repo=None, area=None):
+    repo = repo or core.REPO
+    imports = "".join(f"import {m}\n" for m in AREA_IMPORTS.get(area, ["Mathy.Model.PyRt"]))
     out = [
         "/-\nGENERATED by harness/py2lean.py from the LIVE source files of mathy_core — do not edit.\n"
         "Each definition is the statement-by-statement translation of the Python function named above\n"
         "it, over the run-time library Model/PyRt.lean.  Proofs/PySrcAgree.lean proves that the\n"
-        "hand-written model computes the same function.\n-/\nimport Mathy.Model.PyRt\nnamespace Mathy.Gen.Src\nopen Mathy.Py\n"
+        "hand-written model computes the same function.\n-/\n" + imports + "namespace Mathy.Gen.Src\nopen Mathy.Py\n"
     ]
     problems = []
     for file, cls, fn, lean, params, ret in FUNCTIONS:
+        if area is not None and AREAS.get(file, "Rules") != area:
+            continue
         path = os.path.join(repo, "mathy_core", file)
         try:
             tree = ast.parse(open(path).read())
